@@ -11,7 +11,8 @@ quiescence protocol rely on) from /repo's working tree on every run and emits th
 proofs/C20P.v states what the model assumes about them (`conn_facts_as_modelled`), so an edit of
 these pieces breaks a proof obligation instead of going unnoticed.
 
-Deliberately syntactic; refuses (exit 1, no file kept) when the code is no longer recognised."""
+Deliberately syntactic; refuses (exit 1: tie reported broken; the file generated from the last recognised
+source is left in place so that the search for a failing input can still run) when the code is no longer recognised."""
 import re, sys, os
 
 
@@ -126,9 +127,7 @@ if __name__ == "__main__":
     try:
         main()
     except Refuse as e:
-        print("extract_c20_conn: REFUSED: %s" % e)
-        try:
-            os.remove(os.path.join(sys.argv[2], "C20ConnFacts.v"))
-        except OSError:
-            pass
+        # exit 1: ./chk reports the tie as broken.  The previously generated file is left in place so that the
+        # models still compile and ./chk can go on searching for a failing input on the implementation's behaviour.
+        print("extract_c20_conn: REFUSED: %s (gen/C20ConnFacts.v left as generated from the last recognised source)" % e)
         sys.exit(1)
